@@ -760,7 +760,9 @@ func rulesC05(c *Ctx) {
 					}
 					// (c) ch != nil … ch = nil
 					okNil := false
-					if hasAtom(guards, func(a Atom) bool { return AtomSaysNil(a, false, func(e ast.Expr) bool { return f.ObjOf(e) == types.Object(chF) }) }) || f.Lit != nil {
+					if hasAtom(guards, func(a Atom) bool {
+						return AtomSaysNil(a, false, func(e ast.Expr) bool { return f.ObjOf(e) == types.Object(chF) })
+					}) || f.Lit != nil {
 						// the nil-ing may sit in the same (deferred) literal
 						scope := f
 						sg := scope.Graph()
